@@ -100,7 +100,11 @@ fn baseline(b: u64) -> Plan {
             plan.world.flow_hash = Some(rng.next_u64());
             plan.world.round_robin = false;
             plan.world.rcv_cap = 64;
-            plan.step(20_000, Action::Flood { sock: 0, proto: if rng.chance(1, 2) { P::Classic } else { P::Ietf }, interval_ns: 200_000, count: 20_000 });
+            // what floods in: valid requests, or datagrams no worker will answer (another server's
+            // SRV, garbage, empty, too short), or both alternating
+            let payload = ["valid", "wrong_srv", "mixed", "garbage", "empty", "short"][((b / 6 + b / 36) % 6) as usize];
+            plan.params.insert(format!("flood_{}", payload), 1);
+            plan.step(20_000, Action::Flood { sock: 0, proto: if rng.chance(1, 2) { P::Classic } else { P::Ietf }, interval_ns: 200_000, count: 20_000, payload: Some(payload.into()) });
         }
     }
     // the baseline covers 250 ms of serving (a simulated minute for idle_long); runs with a
